@@ -49,6 +49,10 @@ def _gen_case_a(seed: int, tier: str, index: int) -> Dict[str, Any]:
             # issue the command in the very moment one of the library's own periodic requests is in flight (it queues on the lock
             # behind the facade's watercare poll / the refresh / a ping, whose stale answer is then processed first)
             plan[-1]["sync"] = rng.choice(["GETWC", "GETWC", "STATU", "APING"])
+        if rng.random() < 0.15:
+            # the caller gives up on the request (its own timeout, a cancelled task) after this long -- possibly while it still queues behind
+            # a request of the library -- and then asks for the very same thing again
+            plan[-1]["abandon"] = rng.choice([0.0, 0.0, 0.002, 0.02, 0.1, 0.5])
     # make sure every on/off device is exercised from both states
     for d in range(4):
         plan += [{"op": "switch_on", "dev": d, "arg": 0, "gap": 0.5, "overlap": False}, {"op": "switch_on", "dev": d, "arg": 0, "gap": 0.5, "overlap": False},
@@ -377,6 +381,26 @@ async def scenario(world: WorldA) -> None:
                     judge(world, ctx, expect, real, model, spa, facade, ident)
                 accounted.update(n=len(model.commands), ctx=ctx)
                 continue
+            if op.get("abandon") is not None and op["op"] in ("target_temp", "pump_mode", "temp_unit", "watercare_idx", "watercare_label") and not gate_closed:
+                first = asyncio.ensure_future(thunk())
+                first.set_name(f"HARNESS:abandoned-{ci}")
+                await asyncio.sleep(op["abandon"])
+                if not first.done():
+                    first.cancel()
+                    res.probe("caller_gave_up_on_a_command" + ("_queued_behind_a_library_request" if op.get("sync") else ""))
+                try:
+                    await first
+                except asyncio.CancelledError:
+                    pass
+                except Exception as e:
+                    world.violate(PROP, "command-raised", f"{ctx} (abandoned after {op['abandon']}s): raised {type(e).__name__}: {e}")
+                await settle()
+                # what the abandoned request put on the wire (nothing or one command) is not counted; the same request is now made again and
+                # judged like any other
+                ctx = f"[again after the caller gave up {op['abandon']}s into the first request] " + ctx
+                gate_closed = not spa.is_responding_to_pings
+                mark = len(model.commands)
+                accounted.update(n=mark, ctx=ctx)
             if op.get("overlap") and expect["n"] == 1:
                 # issue it while another request is in flight (it queues on the protocol lock)
                 inflight.append(asyncio.create_task(spa.async_get_reminders(), name=f"HARNESS:bg-{ci}"))
@@ -455,7 +479,7 @@ ASSUMPTIONS = [
     "temperature read-back is compared within one raw unit (1/18 C or 0.1 F); exact raw arithmetic is C14's business",
     "SPACK/SETWC layouts are decoded independently in the harness",
 ]
-PROBES = ["sync_twin_on_async_facade", "two_sync_twins_in_one_instant", "blocking_command", "command_right_after_library_sent_GETWC", "more_than_a_full_cycle_of_pack_commands", "command_while_another_in_flight", "in_active_mode", "in_idle_mode", "eco_on", "eco_off", "watercare_index", "watercare_label",
+PROBES = ["caller_gave_up_on_a_command", "caller_gave_up_on_a_command_queued_behind_a_library_request", "sync_twin_on_async_facade", "two_sync_twins_in_one_instant", "blocking_command", "command_right_after_library_sent_GETWC", "more_than_a_full_cycle_of_pack_commands", "command_while_another_in_flight", "in_active_mode", "in_idle_mode", "eco_on", "eco_off", "watercare_index", "watercare_label",
           "on_from_off:GeckoLight", "off_from_on:GeckoLight", "on_when_already:GeckoLight", "off_when_already:GeckoLight",
           "on_from_off:GeckoBlower", "off_from_on:GeckoBlower", "target_temp_C", "target_temp_F"]
 N_QUICK = 68
